@@ -18,6 +18,7 @@ import os
 import shutil
 import sqlite3
 import tarfile
+import zlib
 from pathlib import Path
 
 import wn
@@ -255,11 +256,15 @@ def build_tree(node, parent: Path, name: str) -> Path:
     k = node['k']
     if k == 'file':
         what = node['what']
+        # a resource file is recognised by its content: the name may carry any suffix or none
+        odd = ['', '', '.txt', '', '.md', '', '.rst', '.bib'][zlib.crc32(name.encode()) % 8]
         if what.startswith('lmf:'):
-            p = parent / f'{name}.xml'
+            p = parent / f'{name}{odd or ".xml"}'
+            if odd and zlib.crc32(name.encode()) % 3 == 0:
+                p = parent / name
             shutil.copy(_xml(what[4:]), p)
         elif what.startswith('ili:'):
-            p = parent / f'{name}.tsv'
+            p = parent / f'{name}{odd or ".tsv"}'
             shutil.copy(_ili(what[4:]), p)
         else:
             p = parent / f'{name}.txt'
